@@ -328,4 +328,33 @@ RecycleNext(S) ==
 Recycle(S) ==
   LET reg == Reg(S) IN
   BuilderOf([k \in {<<TypeEx, reg[u]>> : u \in DOMAIN reg} |-> UuidOf(S[k])], reg, RecycleNext(S))
+
+\* ------------------------------------------------------------------ small public helpers (format.rs)
+\* create_item_delta / apply_item_delta: a is None or Some(old data)
+ItemDiff(a, b) == IF ~a.some THEN [ok |-> TRUE, d |-> b] ELSE
+                  IF Len(a.d) # Len(b) THEN Err("DeltaDifferingSizes")
+                  ELSE [ok |-> TRUE, d |-> [j \in 1..Len(b) |-> WrapSub(b[j], a.d[j])]]
+ItemPatch(a, u) == IF ~a.some THEN [ok |-> TRUE, d |-> u] ELSE
+                   IF Len(a.d) # Len(u) THEN Err("DeltaDifferingSizes")
+                   ELSE [ok |-> TRUE, d |-> [j \in 1..Len(u) |-> WrapAdd(a.d[j], u[j])]]
+\* SnapHeader::decode_obj / DeltaHeader::decode_obj on the integers w (decode: on the complete
+\* integers of a byte string)
+SnapHeaderOf(w) ==
+  IF Len(w) < 1 THEN Err("UnexpectedEnd") ELSE
+  IF w[1] < 0 THEN Err("IntOutOfRange") ELSE
+  IF Len(w) < 2 THEN Err("UnexpectedEnd") ELSE
+  IF w[2] < 0 THEN Err("IntOutOfRange") ELSE [ok |-> TRUE, data_size |-> w[1], num_items |-> w[2]]
+DeltaHeaderOf(w) ==
+  IF Len(w) < 1 THEN Err("UnexpectedEnd") ELSE
+  IF w[1] < 0 THEN Err("IntOutOfRange") ELSE
+  IF Len(w) < 2 THEN Err("UnexpectedEnd") ELSE
+  IF w[2] < 0 THEN Err("IntOutOfRange") ELSE
+  IF Len(w) < 3 THEN Err("UnexpectedEnd") ELSE
+  [ok |-> TRUE, nd |-> w[1], nu |-> w[2], warn |-> IF w[3] # 0 THEN {"NonZeroPadding"} ELSE {}]
+\* the four bytes of an integer, most significant first (UUIDs are four big-endian integers)
+BeBytes(x) == LET h == Hi(x)
+                  hu == IF h < 0 THEN h + 65536 ELSE h
+                  l == Lo(x)
+              IN <<hu \div 256, hu % 256, l \div 256, l % 256>>
+UuidBytes(d) == BeBytes(d[1]) \o BeBytes(d[2]) \o BeBytes(d[3]) \o BeBytes(d[4])
 =========================================================================
